@@ -21,6 +21,11 @@ CHECKS = {
             "Every symmetric cost matrix over a small alphabet with every start permutation for LKH (deterministic worker processes, step budget as horizon), every subset of a 3x3 grid with duplicates for DBSCAN under every eps/min_pts/presentation order, every small point set for k-medoids (flat and hierarchical) under all split-plan policies of the parallel wrappers, each judged by straight-line re-definitions of the contracts.",
             "n <= 5 (6-7 for Euclidean grids) nodes; grid geometry only; flat k-medoids only for k <= n.",
             "DESIGN.md section 5 C17"),
+    "C13": ("exploration",
+            "bounded-exhaustive instance generation over the three grammars, print -> parse -> field-by-field comparison with the generating model",
+            "All instances of a finite grid (1-3/4 customers over 60 customer templates x strides x capacity x fleet size) are printed as Solomon, Li&Lim (pairs with non-adjacent cross references) and TSPLIB (depot id != 1, float coordinates) text, parsed by the real readers (rounded and unrounded) and compared with the generating model: ids, coordinates via every matrix entry, demand tuple, windows, service, depot, fleet size, capacity, pairing; every complete Solomon/TSPLIB solution of <= 4 customers is written and read back.",
+            "Alphabets are small; TSPLIB fleet size follows the reader's convention (one vehicle per node).",
+            "DESIGN.md section 5 C13"),
     "C14": ("model_checking",
             "explicit-state BFS over operation histories of the real Tour/Registry against a Vec/set reference model",
             "All operation histories up to the depth bound over insert_at/insert_last/remove/remove_activity_at (tours) and use/free/get_route/use_route/free_route/deep_copy/deep_slice (registry) are executed on the real types; every reached state is compared with a boring reference model and deep copies are checked for independence with every follow-up operation. The tour state space (all arrangements of the task alphabet) is covered completely.",
